@@ -2,6 +2,7 @@ import Holpy.C02.Model
 /-
 C02 — lemmas about the Python primitives and the generated `ItemID` functions.
 -/
+set_option linter.unusedSimpArgs false
 namespace Holpy.C02
 
 theorem list_nil_or_snoc {α : Type} (l : List α) : l = [] ∨ ∃ pre x, l = pre ++ [x] := by
@@ -33,6 +34,48 @@ theorem pySlice_take_nat {α : Type} (t : List α) (n : Nat) :
     pySlice t none (some (n : Int)) = t.take n := by
   rw [pySlice_take _ _ (by simp)]; simp
 
+/-! The proofs about generated definitions do not follow the shape of the generated code: they
+split on the *semantic* facts the code can look at (lengths, equality of prefixes, whether an index
+exists) and let `simp` evaluate the definition in every case, so reordering tests, merging early
+returns or introducing local names in the Python source keeps them valid. -/
+
+theorem can_depend_on_nil (a : List Int) : Gen.can_depend_on a [] ≠ some true := by
+  have h0 : pyLen ([] : List Int) = 0 := rfl
+  have hi : pyIdx ([] : List Int) (-1) = none := by simp [pyIdx, pyLen]
+  have hs0 : pySlice ([] : List Int) none (some (-1)) = [] := by simp [pySlice]
+  have hlen : ¬ ((0 : Int) > pyLen a) := by simp [pyLen]
+  by_cases hs : pySlice a none (some (-1)) = []
+  · simp [Gen.can_depend_on, h0, hi, hs0, hs, hlen]
+  · have hs' : ¬ [] = pySlice a none (some (-1)) := fun e => hs e.symm
+    simp [Gen.can_depend_on, h0, hi, hs0, hs, hs', hlen]
+
+/-- The generated `can_depend_on` on a non-empty cited id, as a closed formula. -/
+theorem can_depend_on_snoc (a pre : List Int) (x : Int) :
+    Gen.can_depend_on a (pre ++ [x]) =
+      if pre.length < a.length ∧ a.take pre.length = pre then
+        (a[pre.length]?).map (fun y => decide (x < y))
+      else some false := by
+  have hl : pyLen (pre ++ [x]) - 1 = (pre.length : Int) := by simp [pyLen]
+  have hlen : pyLen (pre ++ [x]) = (pre.length : Int) + 1 := by simp [pyLen]
+  have hla : pyLen a = (a.length : Int) := rfl
+  by_cases h1 : pre.length < a.length
+  · -- every way the source may phrase "the cited id is not longer than the citing one"
+    have g1 : ¬ ((pre.length : Int) + 1 > (a.length : Int)) := by omega
+    have g2 : (pre.length : Int) + 1 ≤ (a.length : Int) := by omega
+    have g3 : (pre.length : Int) < (a.length : Int) := by omega
+    have g4 : ¬ ((a.length : Int) ≤ (pre.length : Int)) := by omega
+    obtain ⟨y, hy⟩ : ∃ y, a[pre.length]? = some y := ⟨a[pre.length], by simp [h1]⟩
+    by_cases h2 : a.take pre.length = pre
+    · have h2' : pre = a.take pre.length := h2.symm
+      simp [Gen.can_depend_on, hl, hlen, hla, g1, g2, g3, g4, pyIdx_ofNat, pySlice_take_nat, h1, hy, ← h2']
+    · have h2' : ¬ pre = a.take pre.length := fun e => h2 e.symm
+      simp [Gen.can_depend_on, hl, hlen, hla, g1, g2, g3, g4, pyIdx_ofNat, pySlice_take_nat, h1, hy, h2, h2']
+  · have g1 : (pre.length : Int) + 1 > (a.length : Int) := by omega
+    have g2 : ¬ ((pre.length : Int) + 1 ≤ (a.length : Int)) := by omega
+    have g3 : ¬ ((pre.length : Int) < (a.length : Int)) := by omega
+    have g4 : (a.length : Int) ≤ (pre.length : Int) := by omega
+    simp [Gen.can_depend_on, hl, hlen, hla, g1, g2, g3, g4, pyIdx_ofNat, pySlice_take_nat, h1]
+
 /-- What `ItemID.can_depend_on` (as generated from the Python source) says: `other` is
 `pre ++ [x]`, `self` is `pre ++ y :: suf` and `x < y`. -/
 theorem can_depend_on_iff (a b : List Int) :
@@ -41,46 +84,31 @@ theorem can_depend_on_iff (a b : List Int) :
   rcases list_nil_or_snoc b with hb | ⟨pre, x, hb⟩
   · subst hb
     constructor
-    · intro h
-      exfalso
-      simp [Gen.can_depend_on, pyLen, pyIdx, pySlice, pyBound] at h
-      split at h <;> (try split at h) <;> simp at h
+    · intro h; exact absurd h (can_depend_on_nil a)
     · rintro ⟨pre, x, y, suf, h, _⟩
       simp at h
   · subst hb
-    have hl : pyLen (pre ++ [x]) - 1 = (pre.length : Int) := by simp [pyLen]
-    unfold Gen.can_depend_on
-    simp only [hl]
-    rw [pyIdx_ofNat, pyIdx_ofNat, pySlice_take_nat, pySlice_take_nat]
-    simp only [List.take_left', List.getElem?_concat_length]
+    rw [can_depend_on_snoc]
     constructor
     · intro h
       split at h
+      · rename_i hc
+        obtain ⟨hlt, hpre⟩ := hc
+        have hy : a[pre.length]? = some a[pre.length] := by simp [hlt]
+        rw [hy] at h
+        simp only [Option.map_some, Option.some.injEq, decide_eq_true_eq] at h
+        refine ⟨pre, x, a[pre.length], a.drop (pre.length + 1), rfl, ?_, h⟩
+        have h1 : a = a.take pre.length ++ a.drop pre.length := (List.take_append_drop _ _).symm
+        rw [hpre, List.drop_eq_getElem_cons hlt] at h1
+        exact h1
       · simp at h
-      · rename_i hlen
-        split at h
-        · simp at h
-        · rename_i hpre
-          simp only [bne_iff_ne, ne_eq, Decidable.not_not] at hpre
-          simp only [Option.bind_some] at h
-          cases hy : a[pre.length]? with
-          | none => simp [hy] at h
-          | some y =>
-            simp only [hy, Option.bind_some, Option.some.injEq, decide_eq_true_eq] at h
-            refine ⟨pre, x, y, a.drop (pre.length + 1), rfl, ?_, h⟩
-            have h1 : a = a.take pre.length ++ a.drop pre.length := (List.take_append_drop _ _).symm
-            rcases List.getElem?_eq_some_iff.mp hy with ⟨hlt, he⟩
-            have h2 : a.drop pre.length = y :: a.drop (pre.length + 1) := by
-              rw [List.drop_eq_getElem_cons hlt, he]
-            rw [← hpre, h2] at h1; exact h1
     · rintro ⟨pre', x', y, suf, hb, ha, hlt⟩
       have hpx : pre = pre' ∧ x = x' := by
         have := List.append_inj' hb (by simp)
         simpa using this
       obtain ⟨rfl, rfl⟩ := hpx
       subst ha
-      have h1 : ¬ (pyLen (pre ++ [x]) > pyLen (pre ++ y :: suf)) := by simp [pyLen]; omega
-      simp [h1, hlt]
+      simp [hlt]
 
 /-- `can_depend_on` is irreflexive. -/
 theorem can_depend_on_irrefl' (a : List Int) : Gen.can_depend_on a a ≠ some true := by
